@@ -250,7 +250,12 @@ def check_cds(spec, ctx):
                 exp_codons = [c for c in model if all(wlo <= p < whi for p in c)]
             # a window that clips two overlapping blocks to remainders tying on start or end: the order of such blocks is not
             # something a Location represents (C01 F1/F25) - such windows are not compared
-            cl_ = [(max(b[0], wlo), min(b[1], whi)) for b in rm.cleaned_blocks(bl, strand, frames) if max(b[0], wlo) < min(b[1], whi)]
+            elo, ehi = wlo, whi
+            if expand and exp_codons:
+                # the window is widened to whole codons before it clips the blocks
+                elo = min(elo, min(p for c in exp_codons for p in c))
+                ehi = max(ehi, max(p for c in exp_codons for p in c) + 1)
+            cl_ = [(max(b[0], elo), min(b[1], ehi)) for b in rm.cleaned_blocks(bl, strand, frames) if max(b[0], elo) < min(b[1], ehi)]
             if overlapping and (len({a for a, _ in cl_}) < len(cl_) or len({b for _, b in cl_}) < len(cl_)):
                 ctx.label("window_clips_overlap_to_a_tie(skipped)")
                 continue
